@@ -337,6 +337,10 @@ def finish(prop, tier, seed, mod, obs, results, t0, args):
             continue
         seen.add(k["id"])
         print(f"KNOWN-FINDING: property={prop} {k['id']} {k['what']}")
+        if os.environ.get("VERIF_VERBOSE"):
+            for k2, sig2, c2, params2 in known_hits:
+                if k2["id"] == k["id"]:
+                    print(f"  known-hit {sig2} params={params2} model={c2['model']}")
     shown = set()
     for sig, c, params, path, detail in violations:
         if sig in shown:
